@@ -941,8 +941,13 @@ type SyncStormPlan struct {
 }
 
 func genSyncStorm(t *rapid.T) SyncStormPlan {
-	p := SyncStormPlan{Mode: rapid.SampledFrom([]string{"loadorstore", "loadanddelete", "nomatch", "watchable", "watchable"}).Draw(t, "mode")}
+	p := SyncStormPlan{Mode: rapid.SampledFrom([]string{"loadorstore", "loadanddelete", "nomatch", "watchable", "watchable", "future", "future"}).Draw(t, "mode")}
 	p.Setters = 1
+	if p.Mode == "future" {
+		p.Parties, p.Rounds = rapid.IntRange(1, 3).Draw(t, "waiters"), rapid.IntRange(20000, 60000).Draw(t, "frounds")
+		p.Sets = rapid.SampledFrom([]int{1, 8, 32, 128}).Draw(t, "spinmax")
+		return p
+	}
 	if p.Mode == "watchable" {
 		p.Setters = rapid.SampledFrom([]int{1, 2, 2, 3, 4}).Draw(t, "setters")
 	}
@@ -1219,6 +1224,61 @@ func TestSyncStorm(t *testing.T) {
 		if p.Mode == "nomatch" {
 			return runNoMatchStorm(p)
 		}
+		if p.Mode == "future" {
+			return runFutureStorm(p)
+		}
 		return runWatchableStorm(p)
 	})
+}
+
+// runFutureStorm: a fresh Future, 1-3 goroutines that start to wait and one Fill, all leaving a common
+// starting line (the Fill after a swept number of spins): every waiter gets the value, within 10 s of active
+// time - whether it began to wait before, during or after the Fill. (Sets = the sweep's period.)
+var futureSink atomic.Int64
+
+func runFutureStorm(p SyncStormPlan) (vk.Outcome, error) {
+	var out vk.Outcome
+	for round := 0; round < p.Rounds; round++ {
+		f := xsync.NewFuture[int]()
+		var goFlag atomic.Int32
+		res := make(chan int, p.Parties)
+		for w := 0; w < p.Parties; w++ {
+			go func(w int) {
+				for goFlag.Load() == 0 {
+				}
+				if w%2 == 0 {
+					res <- f.Wait()
+				} else {
+					v, err := f.WaitContext(context.Background())
+					if err != nil {
+						v = -1
+					}
+					res <- v
+				}
+			}(w)
+		}
+		go func() {
+			for goFlag.Load() == 0 {
+			}
+			for k := round % p.Sets; k > 0; k-- {
+				futureSink.Add(1)
+			}
+			f.Fill(round + 1)
+		}()
+		goFlag.Store(1)
+		limit := vk.After(10 * time.Second)
+		for w := 0; w < p.Parties; w++ {
+			select {
+			case v := <-res:
+				if v != round+1 {
+					return out, vk.Violf("future-value", "round %d: a waiter that began to wait around the time of Fill(%d) got %d", round, round+1, v)
+				}
+			case <-limit:
+				return out, vk.Violf("future-stuck", "round %d: the Future was filled (by a Fill that raced %d goroutines beginning to wait); 10 s later a waiter has still not returned", round, p.Parties)
+			}
+		}
+	}
+	out.NonTrivial, out.Execs = true, p.Rounds
+	out.Label("storm:future")
+	return out, nil
 }
